@@ -20,13 +20,14 @@ import (
 // Three workloads over the harness pipe, all judged by the conservation
 // checker (flow.go) on the totally ordered packet log plus integrity of
 // position-stamped payloads:
-//   "flow": real mux (sender) against the harness peer with tiny windows and
-//           max packet sizes, forced zero-window parking, trickled adjusts,
-//           regrant policies, exact-max-packet bursts and the 2^32-1 limit;
-//   "recv": real mux (receiver) against a compliant harness sender that
-//           fills the 2 MiB window exactly, with delayed readers and
-//           discarded extended data (code > 1);
-//   "pair": two real muxes joined by the pipe, both directions.
+//
+//	"flow": real mux (sender) against the harness peer with tiny windows and
+//	        max packet sizes, forced zero-window parking, trickled adjusts,
+//	        regrant policies, exact-max-packet bursts and the 2^32-1 limit;
+//	"recv": real mux (receiver) against a compliant harness sender that
+//	        fills the 2 MiB window exactly, with delayed readers and
+//	        discarded extended data (code > 1);
+//	"pair": two real muxes joined by the pipe, both directions.
 func TestC35(t *testing.T) {
 	m := mon.New(t, "C35")
 	defer m.Done()
@@ -397,9 +398,10 @@ func flowCase(m *mon.M, i int64, r *rand.Rand) {
 					}
 					pos := uint64(0)
 					for _, n := range sp.sizes {
-						buf := make([]byte, n)
+						buf := getBuf(n)
 						fillStamps(buf, salt, pos)
 						got, err := w.Write(buf)
+						putBuf(buf)
 						resMu.Lock()
 						results = append(results, writeResult{c.name, sp.code, n, got, err})
 						resMu.Unlock()
